@@ -62,7 +62,7 @@ PROPS = {
     ),
     "C04": dict(
         suite="erc20",
-        modules=["CantoVerif.Props.C04", "CantoVerif.Props.C04Monitors"],
+        modules=["CantoVerif.Props.C04", "CantoVerif.Props.C04Monitors", "CantoVerif.Props.C04Recording"],
         theorems=[
             "CV.later_failure_unchanged",
             "CV.Erc20.convert_failed_unchanged", "CV.Erc20.convert_failed_unchanged_script", "CV.Erc20.convert_failed_unchanged_fault",
@@ -78,6 +78,11 @@ PROPS = {
             "CV.Erc20.C04M.c04_successExactReported_monitor", "CV.Erc20.C04M.c04_noApproval_monitor", "CV.Erc20.C04M.c04_transferTrue_monitor",
             "CV.Erc20.C04M.c04_internalFailureRejects_monitor", "CV.Erc20.C04M.c04_roundtrip_monitor",
             "CV.Erc20.C04M.convertCoin_logged", "CV.Erc20.C04M.convertERC20_logged", "CV.Erc20.C04M.honest_codeLookupOk",
+            # Props/C04Recording.lean: recording the EVM's answers does not influence the run (simulation along a projection of the EVM
+            # state, every handler), so the answer-reading predicates are linked on the PLAIN model run
+            "CV.Erc20.C04M.step_sim", "CV.Erc20.C04M.recording_transparent", "CV.Erc20.C04M.recording_transparent_run",
+            "CV.Erc20.C04M.c04_successExactReported_monitor_plain", "CV.Erc20.C04M.c04_noApproval_monitor_plain",
+            "CV.Erc20.C04M.c04_transferTrue_monitor_plain", "CV.Erc20.C04M.c04_internalFailureRejects_monitor_plain",
         ],
         comps={"outcome", "resp", "reg", "nonce", "meta", "params", "evm", "token", "bank", "send"},
         assumptions=_ASSUME,
